@@ -68,6 +68,13 @@ def check_blockFormat_durations(adm, fix=False):
             _check_blockFormat_duration(bf_a, bf_b, fix=fix)
 
 
+def fix_blockFormat_durations(adm):
+    """Modify the duration of audioBlockFormats to ensure that the end of one
+    audioBlockFormat always matches the start of the next.
+    """
+    check_blockFormat_durations(adm, fix=True)
+
+
 def check_blockFormat_interpolationLengths(adm, fix=False):
     """If fix, modify the interpolationLength of audioBlockFormats to ensure
     that they are not greater than the durations.
